@@ -15,6 +15,7 @@ import NumbersModel.Gen.TrDuration
 import NumbersModel.Gen.TrDec128
 import NumbersModel.Gen.TrMerge
 import NumbersModel.Gen.TrEdit
+import NumbersModel.Gen.TrCache
 import NumbersModel.Drv.Addressing
 import NumbersModel.Model.DateFmt
 
@@ -149,6 +150,26 @@ def handleTrEdit : List String → Option String
     | _ => none
   | _ => none
 
+/-- `cache calls <n> <int>*` as in `Drv/Cache.lean`: a sum-of-squares method called through the translated wrapper on
+    consecutive n-tuples, the store threaded from call to call; reply: the results, then the number of stored entries -/
+def handleTrCache : List String → Option String
+  | "calls" :: n :: rest => do
+    let n ← n.toNat?
+    let xs ← rest.mapM String.toInt?
+    if n = 0 then none else
+    let rec groups : Nat → List Int → List (List Int)
+      | 0, _ => []
+      | _, [] => []
+      | fuel + 1, l => l.take n :: groups fuel (l.drop n)
+    let calls := groups xs.length xs
+    let f (a : List Int) : Int := (a.zipIdx.map fun p => p.1 * p.1 + (p.2 : Int)).sum
+    let r : PyM (List Int × List (Text × Int)) := calls.foldlM (fun (acc : List Int × List (Text × Int)) a => do
+      let (v, st) ← cache_inner_multi_args f (n : Int) acc.2 a
+      pure (acc.1 ++ [v], st)) ([], [])
+    pure (showPyM (fun (p : List Int × List (Text × Int)) =>
+      " ".intercalate (p.1.map toString) ++ " | " ++ toString p.2.length) r)
+  | _ => none
+
 /-- the operators of `Py/Trans.lean` themselves, so that the meaning the translator gives to `& | << >> // %` and
     `int(a / b)` / `int(ceil(a / c))` is compared with CPython on signed operands -/
 def handlePyOps : List String → Option String
@@ -183,6 +204,7 @@ def trDispatch (line : String) : String :=
     | "merge" :: rest => handleTrMerge rest
     | "py" :: rest => handlePyOps rest
     | "edit" :: rest => handleTrEdit rest
+    | "cache" :: rest => handleTrCache rest
     | _ => none
   match r with
   | some s => s
